@@ -606,3 +606,41 @@ Proof.
     rewrite (contract_of_forall2 _ Hsc). reflexivity. }
   exists m. rewrite Hsame. exact Hm.
 Qed.
+
+(* evaluation is a function of the term: once both runs produce an outcome, the outcomes are related.
+   (What [lift] leaves open is only the case where the bare run never produces an outcome.) *)
+Theorem lift_both_terminate :
+  forall (O : orel) t1 t2 n1 n2 r1 r2,
+    (forall a b, O a b -> a <> OutOfFuel) ->
+    lift O t1 t2 ->
+    ev n1 t1 = r1 -> r1 <> OutOfFuel -> ev n2 t2 = r2 -> r2 <> OutOfFuel -> O r1 r2.
+Proof.
+  intros O t1 t2 n1 n2 r1 r2 HT Hl H1 N1 H2 N2.
+  destruct (Hl n2 r2 H2 N2) as [m [r1' [H1' HO]]].
+  assert (E : r1 = r1') by (eapply ev_det; eauto). rewrite E. exact HO.
+Qed.
+
+(* hypotheses of the erasure theorems are satisfiable: `(fun g x => g x) | forall a b. (a -> b) -> a -> b`
+   applied to `fun y => y + 1` and `1` *)
+Definition apply_impl : tm := Lam "g" (Lam "x" (App (Var "g") (Var "x"))).
+Definition apply_sty_args : sty * sty * sty := (SFun (SVar 0) (SVar 1), SVar 0, SVar 1).
+
+Example parametric_same_result2_hypotheses :
+  let sg := fun _ : nat => SNum in
+  scoped 2 (SFun (SFun (SVar 0) (SVar 1)) (SFun (SVar 0) (SVar 1)))
+  /\ (forall i, is_svar (sg i) = false)
+  /\ has_ty [] apply_impl (SFun (SFun (SVar 0) (SVar 1)) (SFun (SVar 0) (SVar 1)))
+  /\ has_ty [] (Lam "y" (Op2 Add (Var "y") (Num 1))) (inst sg (SFun (SVar 0) (SVar 1)))
+  /\ has_ty [] (Num 1) (inst sg (SVar 0))
+  /\ is_base (inst sg (SVar 1)) = true
+  /\ eval cfg_real 20 [] (App (App apply_impl (Lam "y" (Op2 Add (Var "y") (Num 1)))) (Num 1)) = Ok (VNum 2)
+  /\ eval cfg_real 20 []
+       (App (App (Ann (TForall "a" KType (TForall "b" KType
+                         (sty_ty names2 (SFun (SFun (SVar 0) (SVar 1)) (SFun (SVar 0) (SVar 1))))))
+                      apply_impl)
+                 (Lam "y" (Op2 Add (Var "y") (Num 1)))) (Num 1)) = Ok (VNum 2).
+Proof.
+  cbn [scoped has_ty inst is_base is_svar apply_impl lookup String.eqb Ascii.eqb Bool.eqb].
+  repeat split; try lia; try reflexivity.
+  exists (SVar 0). split; reflexivity.
+Qed.
